@@ -259,7 +259,7 @@ func (h *vHook) AfterSQL(c *verifsim.SQLCall, res string) {
 	h.mu.Lock()
 	f := h.fault
 	hit := h.armed && f != nil && !h.fired && f.Chan == "sql" && f.Stmt == c.Stmt && f.At == c.At &&
-		h.counts["sql|"+c.Stmt+"|"+c.At] == f.Occ && (f.Kind == "dieafter" || f.Kind == "crashmgr" || f.Kind == "zkloss")
+		h.counts["sql|"+c.Stmt+"|"+c.At] == f.Occ && (f.Kind == "dieafter" || f.Kind == "crashmgr" || f.Kind == "zkloss" || f.Kind == "zkexpire" || f.Kind == "zkexpire_other")
 	if hit {
 		h.fired = true
 	}
@@ -274,6 +274,8 @@ func (h *vHook) AfterSQL(c *verifsim.SQLCall, res string) {
 		case "zkloss":
 			h.s.appEv(c.By, "ZkLoss", "", "")
 			h.s.Z.Cut(c.By)
+		case "zkexpire", "zkexpire_other":
+			h.expire(c.By, f.Kind == "zkexpire_other")
 		}
 	}
 	if armed && c.Mut && (c.Stmt == "SetSuperReadOnly" || c.Stmt == "StopIO") {
@@ -309,6 +311,10 @@ func (h *vHook) BeforeZk(client, op, path string) (int32, bool) {
 	case "zkloss":
 		go h.s.Z.Cut(client)
 		return 0, true
+	case "zkexpire", "zkexpire_other":
+		// the session is expired by the server right before this request is processed
+		h.expire(client, f.Kind == "zkexpire_other")
+		return 0, false
 	case "crashmgr_after", "zkloss_after":
 		h.mu.Lock()
 		h.pendingZk = f
@@ -337,6 +343,24 @@ func (h *vHook) AfterZk(client, op, path string, code int32) bool {
 		return true
 	}
 	return false
+}
+
+// expire ends the sessions of `by` on the server (the client library opens a new one at
+// once); with other=true another live instance runs one activation right away, so a
+// candidate can take the manager lock before `by` asks for it again.
+func (h *vHook) expire(by string, other bool) {
+	h.s.appEv(by, "ZkExpire", "", "")
+	h.s.Z.ExpireClient(by)
+	if !other {
+		return
+	}
+	for _, x := range h.s.hosts {
+		if in := h.s.insts[x]; x != by && in != nil && !in.dead {
+			time.Sleep(50 * time.Millisecond)
+			h.s.tick(x)
+			return
+		}
+	}
 }
 
 func (s *vSim) hookFired() bool {
